@@ -199,6 +199,9 @@ def _search_eval(ctx, fn, V, normal, maxindex, order=None, hkl=None, numpy_close
     ev.globals = {'gen_vector': lambda n: list(cands), 'vector_crystal_to_cartesian': v2c, 'vect_angle': angle}
 
     def isclose(a, b, rtol=sp.Rational(1, 10 ** 5), atol=sp.Rational(1, 10 ** 8), **k):
+        if isinstance(a, (list, tuple, np.ndarray)) or isinstance(b, (list, tuple, np.ndarray)):
+            A_, B_ = np.broadcast_arrays(np.asarray(a, dtype=object), np.asarray(b, dtype=object))
+            return np.array([isclose(x_, y_, rtol=rtol, atol=atol) for x_, y_ in zip(A_.ravel(), B_.ravel())], dtype=bool).reshape(A_.shape)
         if numpy_close:
             # concrete numbers, numpy's own test |a - b| <= atol + rtol·|b| (40-digit evaluation): an absolute tolerance on a quantity that carries a length shows at small scales
             return bool(sp.N(sp.Abs(sp.sympify(a) - sp.sympify(b)), 40) <= sp.N(sp.sympify(atol) + sp.sympify(rtol) * sp.Abs(sp.sympify(b)), 40))
@@ -686,6 +689,8 @@ def fault(ctx):
         dcalls = []
 
         class SyC(PyStub):
+            box, pbc, symbols, masses = 'BOX', (True, True, False), ('Al',), (None,)
+
             def __init__(self, pos):
                 self.atoms = At(pos)
 
@@ -705,7 +710,11 @@ def fault(ctx):
         origc = SyC(Pc.copy())
         obj = SymObj(cls, {'system': origc, 'cutindex': 2, 'abovefault': maskc, 'a1vect_cart': arr([Lx, 0, 0]), 'a2vect_cart': arr([0, Lx, 0]), 'faultpos_cart': R(1)}, 'self')
         ev = SymEval(aliases)
-        ev.globals = {'deepcopy': lambda x: SyC(x.atoms.pos.copy())}
+        def mksysc(atoms=None, box=None, pbc=None, symbols=None, masses=None, safecopy=False, **k_):
+            if k_ or atoms is None:
+                raise Opaque('System(%s)' % sorted(k_))
+            return SyC(atoms.pos.copy() if safecopy else atoms.pos)
+        ev.globals = {'deepcopy': lambda x: SyC(x.atoms.pos.copy()), 'System': mksysc}
         try:
             r = [q for q in ev.run_fn(ffn, [obj], dict(minimum_r=R(1))) if q.done == 'return']
         except (Opaque, WouldRaise) as e:
